@@ -522,7 +522,7 @@ def gen_tree(rng):
         if len(base) >= 2:
             continue
         n = rng.choice(HOST_NAMES)
-        isdir = rng.random() < 0.4
+        isdir = rng.random() < (0.6 if len(dirs) < 4 else 0.3)
         if any(t[0] == drive and t[1] == base + [n] for t in tree):
             continue
         tree.append([drive, base + [n], isdir])
@@ -532,22 +532,57 @@ def gen_tree(rng):
     return tree, names
 
 
+# paths that start at (what looks like) a root and climb: every root-like prefix x a run of `..` / `.` elements
+# x a target.  ntpath.normpath collapses `..` after `\` but keeps it verbatim in the server/share part of a
+# UNC-looking path (`\\..\..\X`), after `\\.\` / `\\?\` and after a drive-relative prefix: whatever survives must be
+# clamped at the mount root from ANY working directory, so these are combined with CHDIR prologues below.
+ROOTISH = ['\\', '\\\\', '\\\\\\', 'C:\\', 'C:\\\\', 'c:\\\\', 'D:\\\\', '\\\\.\\', '\\\\?\\', '\\\\..\\', 'C:', '', '.\\', '..\\',
+           '\\\\SUB\\', '\\\\.\\..\\']
+CLIMB_TARGETS = ['SECRET.TXT', 'SIB', 'SIB\\X.TXT', '*.*', 'PROG.BAS', 'PROG', 'lvl', 'mnt', 'MNT2\\Y.BAS', 'NEW', '', '.', 'X']
+
+
+def gen_climb(rng, names):
+    res = rng.choice(ROOTISH)
+    ups = [rng.choice(['..', '..', '..', '.', '.. ', '...']) for _ in range(rng.choice([1, 2, 2, 3, 4]))]
+    if rng.random() < 0.25 and names:
+        ups.insert(rng.randrange(len(ups) + 1), rng.choice(names))
+    tgt = rng.choice(CLIMB_TARGETS + list(names)) if rng.random() < 0.85 else ''
+    return b(('\\'.join([res.rstrip('\\') if False else res + '\\'.join(ups)] + ([tgt] if tgt else []))).encode('cp437', 'replace'))[:255]
+
+
 def gen_history(rng, n_steps=None):
     tree, names = gen_tree(rng)
     names = names + ['SUB', 'PROG.BAS']
     steps = []
+    # prologue: half of the histories first CHDIR into existing directories (1-2 levels below a root)
+    dirs = [t for t in tree if t[2]]
+    if dirs and rng.random() < 0.55:
+        drive, comps, _ = rng.choice(sorted(dirs, key=lambda t: -len(t[1]))[:max(1, len(dirs) // 2 + 1)])
+        pre = 'D:' if drive == 68 else rng.choice(['', 'C:'])
+        try:
+            if rng.random() < 0.5 or len(comps) == 1:
+                steps.append(['CHDIR', b(pre + '\\' + '\\'.join(comps))])
+            else:
+                steps.append(['CHDIR', b(pre + comps[0])])
+                steps.append(['CHDIR', b(pre + '\\'.join(comps[1:]))])
+        except UnicodeEncodeError:
+            steps = []
     for _ in range(n_steps or rng.choice([2, 3, 4, 5, 6])):
         r = rng.random()
         if r < 0.3:
             kind = 'CHDIR'
         else:
             kind = rng.choice(STMT_KINDS)
-        st = [kind, gen_path(rng, names) if kind != 'FILES0' else []]
-        while kind in OPEN_LIKE and nondisk(st[1]) and kind not in ('OPENO', 'OPENI', 'OPENA', 'OPENR'):
+        def path():
+            return gen_climb(rng, names) if rng.random() < 0.15 else gen_path(rng, names)
+        st = [kind, path() if kind != 'FILES0' else []]
+        while kind in OPEN_LIKE and nondisk(st[1]) and (kind not in ('OPENO', 'OPENI', 'OPENA', 'OPENR') or
+                                                        (bytes(st[1]) == b'CON' and kind in ('OPENA', 'OPENR'))):
+            # (OPEN "CON" FOR APPEND/RANDOM raises UnboundLocalError until fixes/D27c.patch is applied)
             # (LOAD "KYBD:" and the like would wait for input; OPEN on non-disk devices is generated)
             st[1] = gen_path(rng, names)
         if kind == 'NAME':
-            st.append(gen_path(rng, names))
+            st.append(path())
         if kind in ('FILES', 'KILL') and rng.random() < 0.5:
             st[1] = st[1][:200] + (b('\\') if st[1] and rng.random() < 0.5 else []) + b(rng.choice(
                 ['*.*', '*', '?????.*', '*.BAS', 'A*.*', '.', '..', '*.', 'pr*.b?s', '', '.. ']))
@@ -606,6 +641,14 @@ class C27(core.Check):
               ['NAME', b('..  X\\SECRET.TXT'), b('GOT.TXT')], ['RMDIR', b('..  X\\SIB')]),
             h(t1, ['CHDIR', b('. .')], ['CHDIR', b('.  .')], ['CHDIR', b('.. X')], ['CHDIR', b('..x')], ['OPENO', b('..  X')],
               ['OPENO', b('.  X')], ['MKDIR', b('..  X')]),
+            # root-like prefixes that climb, from a working directory below the root (seeded/C27e class)
+            h([[67, ['SUB'], True], [67, ['SUB', 'DEEP'], True]], ['CHDIR', b('SUB\\DEEP')],
+              ['OPENI', b('\\\\..\\..\\SECRET.TXT')], ['FILES', b('\\\\..\\.\\*.*')], ['KILL', b('\\\\..\\SIB\\X.TXT')],
+              ['CHDIR', b('\\\\..\\..')], ['FILES0', []], ['SAVE', b('NEW')]),
+            h([[67, ['SUB'], True]], ['CHDIR', b('SUB')], ['MKDIR', b('\\\\..\\NEWDIR')], ['NAME', b('\\\\..\\SECRET.TXT'), b('GOT.TXT')],
+              ['RMDIR', b('C:\\\\..\\SIB')], ['BSAVE', b('\\\\.\\..\\..\\OUT')], ['LOAD', b('\\\\?\\..\\PROG')]),
+            h([[68, ['A'], True], [68, ['A', 'B'], True]], ['CHDIR', b('D:\\A\\B')], ['OPENI', b('D:\\\\..\\..\\SECRET.TXT')],
+              ['CHDIR', b('D:\\\\..\\.')], ['FILES', b('D:')]),
             # devices that are not disk drives, the internal drive
             h(t1, ['OPENO', b('SCRN:')], ['OPENO', b('LPT1:X')], ['OPENI', b('KYBD:')], ['OPENO', b('NUL')],
               ['OPENO', b('CAS1:X')], ['OPENO', b('COM1:')]),
